@@ -153,6 +153,49 @@ def part_trace(ck, name, cases, steps, seed_off=0):
                      {"kind": "intset-trace", "config": name, "trace": keep, "rejected": info.get("rejected")})
 
 
+def part_sbs(ck, tier):
+    wd = vlib.workdir(PID, "sbs")
+    vlib.stage_specs(wd, "intset", "common")
+    cfg = "SparseBitSetMC_quick.cfg" if tier == "quick" else "SparseBitSetMC_thorough.cfg"
+    r = vlib.run_tlc(wd, "SparseBitSetMC", cfg=cfg, workers=4 if tier == "quick" else 12, timeout=3000)
+    ck.add_tlc("tlc:sparse-bit-set", r)
+    if not r.ok:
+        ck.spec_error("SparseBitSetMC", r)
+    res = vlib.run_harness("fv-read", ["c14", "sbs-replay", "--cases", r.out])
+    ck.add_harness("replay:sparse-bit-set", res)
+    os.remove(r.out)
+    # V: encoder output and decoder results recorded from the real codec, judged by the TLA+ decoder
+    for i in range(1 if tier == "quick" else 6):
+        trace = os.path.join(wd, "sbs_trace_%d.ndjson" % i)
+        res = vlib.run_harness("fv-read", ["c14", "sbs-record", "--seed", vlib.seed() + i, "--cases", 250 if tier == "quick" else 800, "--out", trace])
+        ck.add_harness("record:sparse-bit-set:%d" % i, res, traces=False)
+        ok, info = vlib.validate_trace(wd, "SparseBitSetTrace", trace)
+        ck.cov["parts"]["validate:sparse-bit-set:%d" % i] = info
+        ck.cov["states"] += info.get("distinct_states", 0)
+        ck.cov["transitions"] += info.get("states_generated", 0)
+        if ok:
+            ck.cov["traces_validated_against_impl"] += info.get("events", 0)
+        else:
+            keep = os.path.join(vlib.REPLAYS, "C14-sbs-trace-seed%d.ndjson" % (vlib.seed() + i))
+            shutil.copy(trace, keep)
+            ck.violation("SparseBitSetTrace rejected an event recorded from the real codec: %s" % info.get("rejected"),
+                         {"kind": "sbs-trace", "trace": keep, "rejected": info.get("rejected")})
+
+
+RS_OTHERS = [[], [[0, 6]], [[1, 1], [3, 4], [6, 6]], [[0, 0], [2, 5]], [[2, 2], [4, 4]]]
+
+
+def part_rangeset(ck):
+    wd = vlib.workdir(PID, "rangeset")
+    vlib.stage_specs(wd, "intset")
+    r = vlib.run_tlc(wd, "RangeSetMC", workers=4)
+    ck.add_tlc("tlc:rangeset", r)
+    if not r.ok:
+        ck.spec_error("RangeSetMC", r)
+    res = vlib.run_harness("fv-read", ["c14", "rangeset", "--graph", r.out, "--others", json.dumps(RS_OTHERS)])
+    ck.add_harness("replay:rangeset", res)
+
+
 def run(tier):
     ck = Check(PID, tier, "model_checking")
     ck.cov["rule"] = ("TLC enumerates every reachable (mode, page vector, page map) representation state of the "
@@ -165,6 +208,8 @@ def run(tier):
     names = ["small3", "u32", "discq", "one"] if tier == "quick" else ["small3", "u32", "discq", "disc", "one", "glyphid", "u16", "small4"]
     for n in names:
         part_refine(ck, n, workers=4 if tier == "quick" else 8)
+    part_sbs(ck, tier)
+    part_rangeset(ck)
     if tier == "quick":
         part_trace(ck, "u32big", cases=20, steps=150)
         part_trace(ck, "discq", cases=10, steps=100)
